@@ -2,6 +2,7 @@
 # usage: tools/try_seed_wt.sh <worktree-with-change-applied> <prop> [...]  — runs checks against a modified copy of the repo
 wt=$1; shift
 cd "$(dirname "$0")/.."
+export VERIF_EVIDENCE_DIR=$PWD/build/seed_evidence; mkdir -p $VERIF_EVIDENCE_DIR
 export PYTHONPATH=$wt:$PWD PYTHONHASHSEED=0 PYTHONDONTWRITEBYTECODE=1 NUMBA_CACHE_DIR=$PWD/build/numba_cache OMP_NUM_THREADS=1 MPLBACKEND=Agg
 for p in "$@"; do
   out=$(/venv/bin/python -W ignore -m harness.runner $p --tier ${TIER:-quick} 2>&1 | grep -E "^(VIOLATION|KNOWN-FINDING)" | cut -c1-200 | tr '\n' ';')
